@@ -209,6 +209,10 @@ func (maps *trackedMaps) processUnfiltered(ctx context.Context, ef *Filter, filt
 				if err := ef.filterValue(ctx, f, classificationTag, opt...); err != nil {
 					return fmt.Errorf("%s: unable to filter string: %w", op, err)
 				}
+				if fPtr {
+					// the map holds pointers: store a pointer to the filtered value
+					f = f.Addr()
+				}
 				v.SetMapIndex(key, f)
 
 			case ftype == reflect.TypeOf([]uint8{}):
@@ -216,6 +220,9 @@ func (maps *trackedMaps) processUnfiltered(ctx context.Context, ef *Filter, filt
 				f := reflect.Indirect(reflect.ValueOf(&s))
 				if err := ef.filterValue(ctx, f, classificationTag, opt...); err != nil {
 					return fmt.Errorf("%s: unable to filter []byte: %w", op, err)
+				}
+				if fPtr {
+					f = f.Addr()
 				}
 				v.SetMapIndex(key, f)
 
